@@ -75,13 +75,18 @@ fn check_set(what: &str, s: &ResourceSet, m: &TriModel) -> CheckResult {
 
 fn rset_strategy(_: Tier) -> BoxedStrategy<RsetCase> {
     (sgen::related(Fam::As), sgen::related(Fam::V4), sgen::related(Fam::V6), prop_oneof![Just(0u8), 1u8..8, 1u8..8], any::<u8>())
-        .prop_map(|(ra, r4, r6, mask, style)| RsetCase {
-            a: Tri { asn: ra.a, v4: r4.a, v6: r6.a },
-            b: Tri { asn: ra.b, v4: r4.b, v6: r6.b },
-            limit_asn: (mask & 1 != 0).then_some(ra.c),
-            limit_v4: (mask & 2 != 0).then_some(r4.c),
-            limit_v6: (mask & 4 != 0).then_some(r6.c),
-            style,
+        .prop_map(|(ra, r4, r6, mask, style)| {
+            // a quarter of the limited cases asks for "none of this type" explicitly
+            let empty = if (style >> 4) & 3 == 3 { 1 + (style >> 6) % 3 } else { 0 };
+            let pick = |present: bool, which: u8, v: Vec<Blk>| present.then_some(if empty == which { Vec::new() } else { v });
+            RsetCase {
+                a: Tri { asn: ra.a, v4: r4.a, v6: r6.a },
+                b: Tri { asn: ra.b, v4: r4.b, v6: r6.b },
+                limit_asn: pick(mask & 1 != 0, 1, ra.c),
+                limit_v4: pick(mask & 2 != 0, 2, r4.c),
+                limit_v6: pick(mask & 4 != 0, 3, r6.c),
+                style,
+            }
         })
         .boxed()
 }
@@ -193,6 +198,23 @@ fn run_rset_inner(c: &RsetCase, obs: &mut Obs) -> CheckResult {
     let none = c.limit_asn.is_none() && c.limit_v4.is_none() && c.limit_v6.is_none();
     ensure!(lim.is_empty() == none, "RequestResourceLimit::is_empty()");
     obs.label(if none { "limit-none" } else if ok { "limit-within" } else { "limit-exceeds" });
+    // the limit's serde form parses back to an equal limit (an explicitly empty limit for a
+    // type - "none of these" - must not turn into "no limit"), which then applies identically
+    let js = serde_json::to_string(&lim).map_err(bad("RequestResourceLimit serialize"))?;
+    let back: RequestResourceLimit = serde_json::from_str(&js)
+        .map_err(|e| Fail::sig("c03:limit-serde", format!("RequestResourceLimit JSON {} does not parse back: {}", js, e)))?;
+    ensure_sig!(
+        back == lim && back.asn() == lim.asn() && back.ipv4() == lim.ipv4() && back.ipv6() == lim.ipv6() && back.is_empty() == none,
+        "c03:limit-serde",
+        "RequestResourceLimit {:?} comes back from its JSON form {} as {:?}", lim, js, back
+    );
+    let empty_limit = [c.limit_asn.as_ref(), c.limit_v4.as_ref(), c.limit_v6.as_ref()].iter().any(|l| l.map(|l| val_model(l).is_empty()).unwrap_or(false));
+    obs.label_if(empty_limit, "limit-explicitly-empty");
+    match (back.apply_to(&a), lim.apply_to(&a)) {
+        (Ok(x), Ok(y)) => ensure_sig!(x == y, "c03:limit-serde", "apply_to differs after a serde round trip of the limit: {} vs {}", x, y),
+        (Err(_), Err(_)) => {}
+        _ => return Err(Fail::sig("c03:limit-serde", format!("apply_to verdict differs after a serde round trip of the limit {}", lim))),
+    }
     match lim.apply_to(&a) {
         Ok(s) => {
             ensure!(ok, "apply_to accepted a limit exceeding the set: limit {} set {}", lim, a);
@@ -233,7 +255,7 @@ pub fn rset_sub() -> Box<dyn SubCheck> {
         strategy: rset_strategy,
         cases: |t| t.pick(120000, 500000),
         run: run_rset,
-        floors: &[("limit-within", 0.05), ("limit-exceeds", 0.10), ("limit-none", 0.10), ("touching-bound", 0.10)],
+        floors: &[("limit-within", 0.05), ("limit-exceeds", 0.10), ("limit-none", 0.10), ("touching-bound", 0.10), ("limit-explicitly-empty", 0.05)],
     }
     .boxed()
 }
